@@ -1457,8 +1457,14 @@ namespace cds { namespace container {
                     return update_flags::retry;
                 }
 
-                if ( pNode->is_valued( memory_model::memory_order_relaxed ) && !(nFlags & update_flags::allow_update)) {
-                    m_stat.onInsertFailed();
+                if ( pNode->is_valued( memory_model::memory_order_relaxed )) {
+                    if ( !(nFlags & update_flags::allow_update)) {
+                        m_stat.onInsertFailed();
+                        return update_flags::failed;
+                    }
+                }
+                else if ( !(nFlags & update_flags::allow_insert)) {
+                    // pNode is a routing node (the key is absent): setting its value is an insertion
                     return update_flags::failed;
                 }
 
